@@ -15,6 +15,7 @@
 package validate
 
 import (
+	"math"
 	"reflect"
 	"strings"
 
@@ -189,7 +190,7 @@ func (t *typeValidator) Validate(data interface{}) *Result {
 	// TODO: check json.Number (see schema.go)
 	isLowerInt := t.Format == integerFormatInt64 && format == integerFormatInt32
 	isLowerFloat := t.Format == numberFormatFloat64 && format == numberFormatFloat32
-	isFloatInt := schType == numberType && swag.IsFloat64AJSONInteger(val.Float()) && t.Type.Contains(integerType)
+	isFloatInt := schType == numberType && isFloat64AnInteger(val.Float()) && t.Type.Contains(integerType)
 	isIntFloat := schType == integerType && t.Type.Contains(numberType)
 
 	if kind != reflect.String && kind != reflect.Slice && t.Format != "" && !(t.Type.Contains(schType) || format == t.Format || isFloatInt || isIntFloat || isLowerInt || isLowerFloat) {
@@ -207,6 +208,17 @@ func (t *typeValidator) Validate(data interface{}) *Result {
 	}
 
 	return emptyResult
+}
+
+// isFloat64AnInteger tells whether a float64 holds an integral value within the range of
+// integers that JSON numbers carry exactly, [-(2^53-1), 2^53-1].
+//
+// swag.IsFloat64AJSONInteger is not used here: it compares with a relative tolerance
+// and reports e.g. 1000000000.5 as an integer.
+func isFloat64AnInteger(f float64) bool {
+	const maxJSONInteger = float64(1<<53 - 1)
+
+	return f >= -maxJSONInteger && f <= maxJSONInteger && f == math.Trunc(f)
 }
 
 func (t *typeValidator) redeem() {
